@@ -5,6 +5,13 @@ from pathlib import Path
 sys.path.insert(0, str(Path(__file__).resolve().parent))
 import common
 
+# translators: regenerate the model files that are derived from /repo's current source
+import importlib
+for plug in sorted((Path(__file__).resolve().parent / "props").glob("C*.py")):
+    mod = importlib.import_module(f"props.{plug.stem}")
+    if hasattr(mod, "pre_build"):
+        mod.pre_build()
+
 try:
     out = common.coq_build(None)
 except common.BuildError as e:
